@@ -201,6 +201,17 @@ def check(prop, tier):
         tv["generated"] = sum(r["generated"] for r in results)
         tv["distinct"] = sum(r["distinct"] for r in results)
         shutil.rmtree(outdir, ignore_errors=True)
+    if prop == "C06":
+        # the unvalidated builder renders and re-parses arbitrary states the same way (TraceBuild, BuilderState events)
+        chunks2, events2 = (8, 900) if tier == "quick" else (32, 4000)
+        outdir, files, rc, err = record_traces("validate", seed + 5, chunks2, events2)
+        results = validate_traces("TraceBuild.tla", "TraceBuild.cfg", files, prop)
+        violations += trace_violations(prop, results, "builder")
+        tv["chunks"] += len(results)
+        tv["events"] += sum(sum(1 for _ in open(f)) for f in files)
+        tv["generated"] += sum(r["generated"] for r in results)
+        tv["distinct"] += sum(r["distinct"] for r in results)
+        shutil.rmtree(outdir, ignore_errors=True)
     cnt = rep["counters"]
     # non-vacuity: the run must have met the features the properties talk about
     if cnt:
